@@ -1,6 +1,7 @@
 (* C02 -- Walking a glob yields exactly the files whose relative path matches. *)
 From WaxModel Require Import Base Token Walk.
-From WaxProofs Require Import WalkFacts.
+From WaxModel Require Import Regex Encode Parse Query.
+From WaxProofs Require Import WalkFacts PruneFacts ParseTreeFacts GlobWalkFacts.
 
 (* an entry is only yielded when the complete program matches its path relative to the directory given *)
 Theorem C02_yields_only_matches :
@@ -34,7 +35,39 @@ Theorem C02_walk_yields_exactly_the_matches :
     forall root,
       yields (walk 0 None [glob_layer prefix progs complete] root) =
       filter (keeps prefix progs complete) (all_entries [] root).
-Proof.
-  intros prefix progs complete H root. rewrite walk_refines. exact (glob_walk_yields prefix progs complete H root 0 []).
-Qed.
+Proof. exact glob_walk_given_pruning. Qed.
 Print Assumptions C02_walk_yields_exactly_the_matches.
+
+(* pruning soundness of the programs the encoder builds (the hypothesis above, discharged): for every token tree whose
+   literals are separator-free, whatever path of valid names the complete program accepts, every component program accepts
+   the component at its own position (orbit: any case-folding table that never folds to the separator - checked over all
+   code points on every run) *)
+Theorem C02_component_programs_prune_soundly :
+  forall orbit, (forall c d, In d (orbit c) -> d <> SEP) ->
+  forall t rel, lits_nosep t = true -> Forall valid_name rel -> sem orbit (encode t) (join_path rel) ->
+  forall i c comp, nth_error rel i = Some c ->
+    nth_error (take_until_boundary (components (concatenation t))) i = Some comp -> sem orbit (enc_component comp) c.
+Proof. exact prune_sound. Qed.
+Print Assumptions C02_component_programs_prune_soundly.
+
+(* ... and every tree the parser produces has separator-free literals *)
+Theorem C02_parsed_literals_are_separator_free : forall e t, parse e = ParseOk t -> lits_nosep t = true.
+Proof. exact parse_lits_nosep. Qed.
+Print Assumptions C02_parsed_literals_are_separator_free.
+
+(* end to end in the model: the walk of a glob with the complete program and the component programs the encoder builds for
+   it, run by any engine that decides the regular languages, over any directory tree with valid names, yields exactly the
+   entries whose path the complete program matches (with at least as many components as there are component programs),
+   in pre-order, each once *)
+Theorem C02_walk_of_a_glob_yields_exactly_its_matches :
+  forall orbit, (forall c d, In d (orbit c) -> d <> SEP) ->
+  forall t, lits_nosep t = true ->
+  forall complete : str -> bool, (forall w, complete w = true <-> sem orbit (encode t) w) ->
+  forall progs : list (name -> bool),
+    Forall2 (fun (pr : name -> bool) r => forall w, pr w = true <-> sem orbit r w) progs (component_programs t) ->
+  forall prefix, Forall valid_name prefix ->
+  forall root, names_valid root ->
+    yields (walk 0 None [glob_layer prefix progs complete] root) =
+    filter (keeps prefix progs complete) (all_entries [] root).
+Proof. exact glob_walk_complete. Qed.
+Print Assumptions C02_walk_of_a_glob_yields_exactly_its_matches.
